@@ -1,0 +1,181 @@
+// Copyright 2020-2025 Buf Technologies, Inc.
+//
+// Licensed under the Apache License, Version 2.0 (the "License");
+// you may not use this file except in compliance with the License.
+// You may obtain a copy of the License at
+//
+//      http://www.apache.org/licenses/LICENSE-2.0
+//
+// Unless required by applicable law or agreed to in writing, software
+// distributed under the License is distributed on an "AS IS" BASIS,
+// WITHOUT WARRANTIES OR CONDITIONS OF ANY KIND, either express or implied.
+// See the License for the specific language governing permissions and
+// limitations under the License.
+
+//go:build verif
+package filelock
+
+// Contracts for the gocv verifier (see /verif/DESIGN.md). Comment-only. (author ca-r4h)
+// Ghost variables rh_lock* / rh_try*: /verif/specs/R4h.spec.
+//
+// C09 (the multi-process clause rests on the file lock): WHICH file is locked and WHEN an unlocker exists. The lock itself
+// (flock(2) through github.com/gofrs/flock, including its retry loop) is outside the repository: TryLockContext /
+// TryRLockContext are reached through a function value and modelled as a deterministic function of (lock object, context,
+// retry delay).
+//
+// validatePath ("The given path must be normalized and relative"): accepted iff the path is a valid relative path in
+// normal form: not absolute, no "..", no ".", no empty component, no trailing separator.
+//@ func validatePath(path) (err)
+//@   property C09
+//@   reveal validRel, cleanShape
+//@   ensures accepted-paths-are-confined: err == nil ==> validRel(path)
+//@   ensures every-valid-relative-path-accepted: validRel(path) ==> err == nil
+//@   canary ensures err == nil
+//@   canary ensures err != nil
+//
+// The documented defaults ("the default lock timeout is set to DefaultLockTimeout", same for the retry delay).
+//@ func newLockOptions() (r)
+//@   property C09
+//@   ensures documented-defaults: r != nil && !old(allocated(r)) && r.timeout == DefaultLockTimeout && r.retryDelay == DefaultLockRetryDelay
+//@ func newLockerOptions() (r)
+//@   property C09
+//@   ensures documented-defaults: r != nil && !old(allocated(r)) && r.lockTimeout == DefaultLockTimeout && r.lockRetryDelay == DefaultLockRetryDelay
+//
+// lockForFunc: the single place a lock is taken.
+//   - never-nil-nil / unlocker-only-after-lock: a non-nil Unlocker is returned iff there is no error, and then exactly one
+//     try-lock call was made, it answered (true, nil), and the Unlocker IS the lock object that call locked;
+//   - gives-up-with-error: a try-lock that answers false (timeout / context end) or an error yields an error, no Unlocker;
+//   - locks-exactly-this-file: the one lock object created is for filePath; its directory is created first;
+//   - timeout-installed: with a non-zero timeout the try-lock runs under a context derived from the caller's with exactly
+//     that timeout, otherwise under the caller's context; the retry delay handed over is the configured one;
+//   - defaults: without options the documented defaults (DefaultLockTimeout, DefaultLockRetryDelay) apply.
+//@ func lockForFunc(ctx, filePath, tryLockContextFunc, options) (r, err)
+//@   property C09
+//@   callback pure tryLockContextFunc
+//@   modifies heap, ghost.fail, ghost.wfail, ghost.j_osWrite, ghost.rh_lockFiles, ghost.rh_tryN, ghost.rh_locked, ghost.rh_lockErr, ghost.rh_tryDelay, ghost.rh_tryCtx, ghost.rh_tryFlock, ghost.rh_tryFunc, ghost.rh_timeoutCtx
+//@   calls option modifies heap lockOptions.timeout, heap lockOptions.retryDelay
+//@   ghost before "var cancel context.CancelFunc" rh_timeoutCtx := nil
+//@   ghost after "ctx, cancel = context.WithTimeout(" rh_timeoutCtx := ctx
+//@   ghost after "flock := flock.New(" rh_tryFlock := flock
+//@   ghost before "locked, err := tryLockContextFunc(" rh_tryN := ghost.rh_tryN + 1
+//@   ghost before "locked, err := tryLockContextFunc(" rh_tryCtx := ctx
+//@   ghost before "locked, err := tryLockContextFunc(" rh_tryFunc := tryLockContextFunc
+//@   ghost before "locked, err := tryLockContextFunc(" rh_tryDelay := lockOptions.retryDelay
+//@   ghost after "locked, err := tryLockContextFunc(" rh_locked := locked
+//@   ghost after "locked, err := tryLockContextFunc(" rh_lockErr := err
+//@   loop 0 invariant lockOptions != nil && (len(options) == 0 ==> lockOptions.timeout == DefaultLockTimeout && lockOptions.retryDelay == DefaultLockRetryDelay)
+//@   ensures never-nil-nil: (err == nil ==> r != nil) && (err != nil ==> r == nil)
+//@   ensures unlocker-only-after-lock: err == nil ==> ghost.rh_tryN == old(ghost.rh_tryN) + 1 && ghost.rh_locked && ghost.rh_lockErr == nil && r == ghost.rh_tryFlock
+//@   ensures answer-is-the-try-lock-answer: ghost.rh_tryN == old(ghost.rh_tryN) + 1 ==> ghost.rh_locked == first(tryLockContextFunc(ghost.rh_tryFlock, ghost.rh_tryCtx, ghost.rh_tryDelay)) && ghost.rh_lockErr == second(tryLockContextFunc(ghost.rh_tryFlock, ghost.rh_tryCtx, ghost.rh_tryDelay))
+//@   ensures gives-up-with-error: ghost.rh_tryN == old(ghost.rh_tryN) + 1 && (!ghost.rh_locked || ghost.rh_lockErr != nil) ==> err != nil && r == nil
+//@   ensures at-most-one-try: ghost.rh_tryN == old(ghost.rh_tryN) || ghost.rh_tryN == old(ghost.rh_tryN) + 1
+//@   ensures locks-exactly-this-file: ghost.rh_lockFiles == old(ghost.rh_lockFiles) || ghost.rh_lockFiles == add(old(ghost.rh_lockFiles), filePath)
+//@   ensures tried-means-file-registered-and-dir-created: ghost.rh_tryN != old(ghost.rh_tryN) ==> filePath in ghost.rh_lockFiles && filepath.Dir(filePath) in ghost.j_osWrite && !(ghost.wfail && !old(ghost.wfail))
+//@   ensures mkdir-failure-reported: ghost.wfail && !old(ghost.wfail) ==> err != nil && ghost.rh_tryN == old(ghost.rh_tryN)
+//@   ensures timeout-installed: ghost.rh_tryN != old(ghost.rh_tryN) ==> (ghost.rh_timeoutCtx == nil ==> ghost.rh_tryCtx == ctx) && (ghost.rh_timeoutCtx != nil ==> ghost.rh_tryCtx == ghost.rh_timeoutCtx && rh_ctxParent(ghost.rh_timeoutCtx) == ctx && rh_ctxTimeout(ghost.rh_timeoutCtx) != 0)
+//@   ensures default-timeout-and-delay: len(options) == 0 && ghost.rh_tryN != old(ghost.rh_tryN) ==> ghost.rh_timeoutCtx != nil && rh_ctxTimeout(ghost.rh_timeoutCtx) == DefaultLockTimeout && ghost.rh_tryDelay == DefaultLockRetryDelay
+//@   canary ensures err == nil
+//@   canary ensures err != nil
+//
+// lock / rlock: the exclusive lock is taken with TryLockContext, the shared lock with TryRLockContext (never the other way
+// round: a store under a shared lock, or a load that blocks other loads, would break the cache protocol).
+//@ func lock(ctx, filePath, options) (r, err)
+//@   property C09
+//@   modifies heap, ghost.fail, ghost.wfail, ghost.j_osWrite, ghost.rh_lockFiles, ghost.rh_tryN, ghost.rh_locked, ghost.rh_lockErr, ghost.rh_tryDelay, ghost.rh_tryCtx, ghost.rh_tryFlock, ghost.rh_tryFunc, ghost.rh_timeoutCtx, ghost.rh_exclusive
+//@   ghost before "return lockForFunc(" rh_exclusive := true
+//@   ensures never-nil-nil: (err == nil ==> r != nil) && (err != nil ==> r == nil)
+//@   ensures exclusive: ghost.rh_exclusive
+//@   ensures unlocker-only-after-lock: err == nil ==> ghost.rh_tryN == old(ghost.rh_tryN) + 1 && ghost.rh_locked && ghost.rh_lockErr == nil && r == ghost.rh_tryFlock
+//@   ensures locks-exactly-this-file: ghost.rh_lockFiles == old(ghost.rh_lockFiles) || ghost.rh_lockFiles == add(old(ghost.rh_lockFiles), filePath)
+//@   ensures locked-means-this-file: err == nil ==> filePath in ghost.rh_lockFiles
+//@ func rlock(ctx, filePath, options) (r, err)
+//@   property C09
+//@   modifies heap, ghost.fail, ghost.wfail, ghost.j_osWrite, ghost.rh_lockFiles, ghost.rh_tryN, ghost.rh_locked, ghost.rh_lockErr, ghost.rh_tryDelay, ghost.rh_tryCtx, ghost.rh_tryFlock, ghost.rh_tryFunc, ghost.rh_timeoutCtx, ghost.rh_exclusive
+//@   ghost before "return lockForFunc(" rh_exclusive := false
+//@   ensures never-nil-nil: (err == nil ==> r != nil) && (err != nil ==> r == nil)
+//@   ensures shared: !ghost.rh_exclusive
+//@   ensures unlocker-only-after-lock: err == nil ==> ghost.rh_tryN == old(ghost.rh_tryN) + 1 && ghost.rh_locked && ghost.rh_lockErr == nil && r == ghost.rh_tryFlock
+//@   ensures locks-exactly-this-file: ghost.rh_lockFiles == old(ghost.rh_lockFiles) || ghost.rh_lockFiles == add(old(ghost.rh_lockFiles), filePath)
+//@   ensures locked-means-this-file: err == nil ==> filePath in ghost.rh_lockFiles
+//
+// locker.Lock / locker.RLock ("locks a file lock within the root directory of the Locker. The given path must be normalized
+// and relative"): a path that is not a valid relative path in normal form is refused before anything is locked or created;
+// otherwise the ONE file that is locked is <root>/<path>: for a root that is itself a valid relative path the lock file lies
+// inside the root (confinement, C13 style); the Unlocker exists only after the try-lock succeeded.
+//@ func (l *locker) Lock(ctx, path, options) (r, err)
+//@   property C09
+//@   modifies heap, ghost.fail, ghost.wfail, ghost.j_osWrite, ghost.rh_lockFiles, ghost.rh_tryN, ghost.rh_locked, ghost.rh_lockErr, ghost.rh_tryDelay, ghost.rh_tryCtx, ghost.rh_tryFlock, ghost.rh_tryFunc, ghost.rh_timeoutCtx, ghost.rh_exclusive
+//@   reveal inside, join2
+//@   ensures never-nil-nil: (err == nil ==> r != nil) && (err != nil ==> r == nil)
+//@   ensures invalid-path-refused: !validRel(path) ==> err != nil && ghost.rh_lockFiles == old(ghost.rh_lockFiles) && ghost.rh_tryN == old(ghost.rh_tryN) && ghost.j_osWrite == old(ghost.j_osWrite)
+//@   ensures only-root-joined-path-locked: ghost.rh_lockFiles == old(ghost.rh_lockFiles) || ghost.rh_lockFiles == add(old(ghost.rh_lockFiles), normalpath.Unnormalize(normalpath.Join(old(l.rootDirPath), path)))
+//@   ensures lock-file-inside-root: err == nil && validRel(old(l.rootDirPath)) ==> inside(old(l.rootDirPath), normalpath.Join(old(l.rootDirPath), path)) && validRel(normalpath.Join(old(l.rootDirPath), path)) && normalpath.Unnormalize(normalpath.Join(old(l.rootDirPath), path)) in ghost.rh_lockFiles
+//@   ensures exclusive: err == nil ==> ghost.rh_exclusive
+//@   ensures unlocker-only-after-lock: err == nil ==> ghost.rh_tryN == old(ghost.rh_tryN) + 1 && ghost.rh_locked && ghost.rh_lockErr == nil && r == ghost.rh_tryFlock
+//@   canary ensures err == nil
+//@ func (l *locker) RLock(ctx, path, options) (r, err)
+//@   property C09
+//@   modifies heap, ghost.fail, ghost.wfail, ghost.j_osWrite, ghost.rh_lockFiles, ghost.rh_tryN, ghost.rh_locked, ghost.rh_lockErr, ghost.rh_tryDelay, ghost.rh_tryCtx, ghost.rh_tryFlock, ghost.rh_tryFunc, ghost.rh_timeoutCtx, ghost.rh_exclusive
+//@   reveal inside, join2
+//@   ensures never-nil-nil: (err == nil ==> r != nil) && (err != nil ==> r == nil)
+//@   ensures invalid-path-refused: !validRel(path) ==> err != nil && ghost.rh_lockFiles == old(ghost.rh_lockFiles) && ghost.rh_tryN == old(ghost.rh_tryN) && ghost.j_osWrite == old(ghost.j_osWrite)
+//@   ensures only-root-joined-path-locked: ghost.rh_lockFiles == old(ghost.rh_lockFiles) || ghost.rh_lockFiles == add(old(ghost.rh_lockFiles), normalpath.Unnormalize(normalpath.Join(old(l.rootDirPath), path)))
+//@   ensures lock-file-inside-root: err == nil && validRel(old(l.rootDirPath)) ==> inside(old(l.rootDirPath), normalpath.Join(old(l.rootDirPath), path)) && validRel(normalpath.Join(old(l.rootDirPath), path)) && normalpath.Unnormalize(normalpath.Join(old(l.rootDirPath), path)) in ghost.rh_lockFiles
+//@   ensures shared: err == nil ==> !ghost.rh_exclusive
+//@   ensures unlocker-only-after-lock: err == nil ==> ghost.rh_tryN == old(ghost.rh_tryN) + 1 && ghost.rh_locked && ghost.rh_lockErr == nil && r == ghost.rh_tryFlock
+//@   canary ensures err == nil
+//
+// The options: each writes exactly the setting it is named after (closure 0 is the returned option).
+//@ func LockWithTimeout(timeout) (r)
+//@   property C09
+//@   ensures r != nil
+//@   closure 0 ensures sets-timeout-only: lockOptions.timeout == timeout && lockOptions.retryDelay == old(lockOptions.retryDelay)
+//@ func LockWithRetryDelay(retryDelay) (r)
+//@   property C09
+//@   ensures r != nil
+//@   closure 0 ensures sets-retry-delay-only: lockOptions.retryDelay == retryDelay && lockOptions.timeout == old(lockOptions.timeout)
+//@ func LockerWithLockTimeout(lockTimeout) (r)
+//@   property C09
+//@   ensures r != nil
+//@   closure 0 ensures sets-timeout-only: lockerOptions.lockTimeout == lockTimeout && lockerOptions.lockRetryDelay == old(lockerOptions.lockRetryDelay)
+//@ func LockerWithLockRetryDelay(lockRetryDelay) (r)
+//@   property C09
+//@   ensures r != nil
+//@   closure 0 ensures sets-retry-delay-only: lockerOptions.lockRetryDelay == lockRetryDelay && lockerOptions.lockTimeout == old(lockerOptions.lockTimeout)
+//
+// newLocker ("The root directory must exist"): the root is stat'ed (symlinks followed); a failing stat is returned as is, a
+// root that is not a directory is an error; no Locker exists in either case. The Locker keeps the normalized root and the
+// configured (default: documented) timeout and retry delay.
+//@ func newLocker(rootDirPath, options) (r, err)
+//@   property C09
+//@   modifies heap lockerOptions.lockTimeout, heap lockerOptions.lockRetryDelay, ghost.j_osStat, ghost.rh_rootStatErr, ghost.rh_rootInfo
+//@   calls option modifies heap lockerOptions.lockTimeout, heap lockerOptions.lockRetryDelay
+//@   ghost after "fileInfo, err := os.Stat(" rh_rootStatErr := err
+//@   ghost after "fileInfo, err := os.Stat(" rh_rootInfo := fileInfo
+//@   loop 0 invariant lockerOptions != nil && (len(options) == 0 ==> lockerOptions.lockTimeout == DefaultLockTimeout && lockerOptions.lockRetryDelay == DefaultLockRetryDelay)
+//@   ensures root-is-statted: ghost.j_osStat == add(old(ghost.j_osStat), normalpath.Unnormalize(rootDirPath))
+//@   ensures missing-root-refused: ghost.rh_rootStatErr != nil ==> err == ghost.rh_rootStatErr && r == nil
+//@   ensures non-directory-root-refused: ghost.rh_rootStatErr == nil && !ghost.rh_rootInfo.IsDir() ==> err != nil && r == nil
+//@   ensures existing-directory-accepted: ghost.rh_rootStatErr == nil && ghost.rh_rootInfo.IsDir() ==> err == nil
+//@   ensures locker-for-normalized-root: err == nil ==> r != nil && r.rootDirPath == normalpath.Normalize(rootDirPath)
+//@   ensures documented-defaults: err == nil && len(options) == 0 ==> r.lockTimeout == DefaultLockTimeout && r.lockRetryDelay == DefaultLockRetryDelay
+//@   canary ensures err == nil
+//@   canary ensures err != nil
+//@ func NewLocker(rootDirPath, options) (r, err)
+//@   property C09
+//@   modifies heap lockerOptions.lockTimeout, heap lockerOptions.lockRetryDelay, ghost.j_osStat, ghost.rh_rootStatErr, ghost.rh_rootInfo
+//@   ensures root-is-statted: ghost.j_osStat == add(old(ghost.j_osStat), normalpath.Unnormalize(rootDirPath))
+//@   ensures missing-or-non-directory-root-refused: ghost.rh_rootStatErr != nil || !ghost.rh_rootInfo.IsDir() ==> err != nil
+//@   ensures locker-for-normalized-root: err == nil ==> r != nil && typeOf(r) == typeId(*locker) && cast(*locker, r).rootDirPath == normalpath.Normalize(rootDirPath)
+//
+// The package-level Lock / RLock ("for a specific system file"): exclusive resp. shared lock of exactly that file.
+//@ func Lock(ctx, filePath, options) (r, err)
+//@   property C09
+//@   modifies heap, ghost.fail, ghost.wfail, ghost.j_osWrite, ghost.rh_lockFiles, ghost.rh_tryN, ghost.rh_locked, ghost.rh_lockErr, ghost.rh_tryDelay, ghost.rh_tryCtx, ghost.rh_tryFlock, ghost.rh_tryFunc, ghost.rh_timeoutCtx, ghost.rh_exclusive
+//@   ensures never-nil-nil: (err == nil ==> r != nil) && (err != nil ==> r == nil)
+//@   ensures exclusive-lock-of-this-file: err == nil ==> ghost.rh_exclusive && filePath in ghost.rh_lockFiles && ghost.rh_locked && ghost.rh_lockErr == nil
+//@ func RLock(ctx, filePath, options) (r, err)
+//@   property C09
+//@   modifies heap, ghost.fail, ghost.wfail, ghost.j_osWrite, ghost.rh_lockFiles, ghost.rh_tryN, ghost.rh_locked, ghost.rh_lockErr, ghost.rh_tryDelay, ghost.rh_tryCtx, ghost.rh_tryFlock, ghost.rh_tryFunc, ghost.rh_timeoutCtx, ghost.rh_exclusive
+//@   ensures never-nil-nil: (err == nil ==> r != nil) && (err != nil ==> r == nil)
+//@   ensures shared-lock-of-this-file: err == nil ==> !ghost.rh_exclusive && filePath in ghost.rh_lockFiles && ghost.rh_locked && ghost.rh_lockErr == nil
